@@ -202,6 +202,23 @@ pub fn gen(seed: u64, count: usize, tier: &str, params: &Params) -> Vec<Value> {
             _ => 1 + rng.below(n.max(1) as u64) as i64,
         };
         let mut a: Vec<i64> = (0..n).map(|_| rng.range(1, distinct)).collect();
+        // a long run of one value with a few others around it: every partitioning round strips one copy of the run, so the
+        // recursion goes as deep as the run is long whatever the pivots are
+        let deep = params.get("deep").map(|s| s == "1").unwrap_or(false);
+        if deep {
+            let run = rng.range(70, 260);
+            let below = rng.range(0, 3);
+            let above = rng.range(1, 12);
+            a = Vec::new();
+            for k in 0..below { a.push(1 + k); }
+            for _ in 0..run { a.push(below + 1); }
+            for k in 0..above { a.push(below + 2 + if rng.chance(1, 3) { k / 2 } else { k }); }
+            // relabel to a dense pattern
+            let mut d = a.clone(); d.sort(); d.dedup();
+            for v in a.iter_mut() { *v = d.binary_search(v).unwrap() as i64 + 1; }
+            if rng.chance(1, 2) { for k in (1..a.len()).rev() { let j = rng.below(k as u64 + 1) as usize; a.swap(k, j); } }
+        }
+        let n = a.len() as i64;
         match rng.below(6) {
             0 => a.sort(),
             1 => {
@@ -231,6 +248,13 @@ pub fn gen(seed: u64, count: usize, tier: &str, params: &Params) -> Vec<Value> {
             kind => {
                 let m = rng.below(if tier == "thorough" { 33 } else { 9 });
                 let mut idx: Vec<i64> = (0..m).map(|_| if n == 0 { 0 } else { rng.range(0, n - 1) }).collect();
+                if deep {
+                    // sparse requests at and just beyond the end of the run, unordered and with repeats
+                    let last = n - 1;
+                    let cnt = rng.range(1, 4);
+                    idx = (0..cnt).map(|_| (last - rng.range(0, 13)).max(0)).collect();
+                    if rng.chance(1, 2) { let d0 = idx[0]; idx.push(d0); }
+                }
                 if (oor || n == 0) && !idx.is_empty() {
                     let pos = rng.below(idx.len() as u64) as usize;
                     idx[pos] = oor_pos(&mut rng, n);
